@@ -32,6 +32,11 @@ func (fu *fetchUnit) cycle(app risc.Application, ctx *risc.Context, outBus *comp
 	if fu.complete {
 		return
 	}
+	if fu.pc/4 >= int32(len(app.Instructions)) {
+		// A branch or a jump to the end of the program: nothing left to fetch
+		fu.complete = true
+		return
+	}
 
 	if !fu.processing {
 		fu.processing = true
